@@ -219,9 +219,21 @@ func c05EncodeWith(o xOpts, enc int, v map[string]interface{}) Outcome {
 	v = deepCopy(v).(map[string]interface{})
 	o.apply()
 	defer restoreDefaults()
+	// every other call encodes the same Map value twice and reports the second result: what an encoder
+	// writes may not depend on the value having been encoded before (seed C05-8: the escaped text stored back)
+	applyCount++
+	twice := hash64(fmt.Sprint("c05enc", applyCount))%2 == 0
 	return protect(func() Outcome {
 		var b []byte
 		var err error
+		if twice {
+			switch enc {
+			case 0, 1:
+				mxj.Map(v).Xml()
+			default:
+				mxj.MapSeq(v).Xml()
+			}
+		}
 		switch enc {
 		case 0:
 			b, err = mxj.Map(v).Xml()
